@@ -156,7 +156,12 @@ def run(prop, seed, tier):
             failures.append({'key': key, 'schema': F.Pool.TEXT + txt, 'struct': txt.split()[1], 'value': repr(hist), 'what': what})
 
     with lib.Scratch() as sc:
-        mod, nodes = lib.compile_python(F.Pool.TEXT + ''.join(t for t, _ in structs), sc, 'api')
+        try:
+            mod, nodes = lib.compile_python(F.Pool.TEXT + ''.join(t for t, _ in structs), sc, 'api')
+        except lib.CompileError as ex:
+            failures.append({'key': 'build', 'schema': F.Pool.TEXT + ''.join(t for t, _ in structs), 'struct': '-', 'value': '-',
+                             'what': str(ex)[:1500]})
+            structs = []
         for txt, st in structs:
             cls = getattr(mod, st.name)
             for _ in range(3 if tier == 'quick' else 8):
